@@ -6,7 +6,9 @@ import (
 	"math/rand"
 	"os"
 	"path/filepath"
+	"runtime"
 	"sort"
+	"strings"
 	"sync"
 	"time"
 
@@ -40,6 +42,8 @@ var VerifSim struct {
 	WrapLeveldbStorage func(path string, s storage.Storage) storage.Storage
 
 	DisableGCLoop bool
+	// GCLoopTimer, when set, replaces the timer gcloop waits on between rounds.
+	GCLoopTimer func(d time.Duration) <-chan time.Time
 }
 
 func simYield(p string) {
@@ -70,7 +74,32 @@ func randInt31n(n int32) int32 {
 	return rand.Int31n(n)
 }
 
-func gcloopEnabled() bool { return !VerifSim.DisableGCLoop }
+// gcloopEnabled: with DisableGCLoop set the background loop every server starts returns at
+// once; only a loop run through VerifService.GCLoop (recognised by its stack, so that a
+// background goroutine scheduled late can never be mistaken for it) goes on.
+func gcloopEnabled() bool {
+	if !VerifSim.DisableGCLoop {
+		return true
+	}
+	var pcs [16]uintptr
+	frames := runtime.CallersFrames(pcs[:runtime.Callers(2, pcs[:])])
+	for {
+		f, more := frames.Next()
+		if strings.HasSuffix(f.Function, "(*VerifService).GCLoop") {
+			return true
+		}
+		if !more {
+			return false
+		}
+	}
+}
+
+func gcloopTimer(d time.Duration) <-chan time.Time {
+	if f := VerifSim.GCLoopTimer; f != nil {
+		return f(d)
+	}
+	return time.After(d)
+}
 
 func init() {
 	// randFloat (row-sample filter) is already a package variable: route it through the seam.
@@ -330,6 +359,12 @@ func (v *VerifService) GC(table string, force bool) bool {
 	}
 	t.gc(v.s.clock(), v.s.done, force)
 	return true
+}
+
+// GCLoop runs the server's real garbage-collection loop in the caller's goroutine (rounds are
+// paced by VerifSim.GCLoopTimer); it returns when the server is closed.
+func (v *VerifService) GCLoop() {
+	v.s.gcloop()
 }
 
 // LeakedLocks reports table names whose mutex is held, and whether the server mutex is held.
